@@ -2,6 +2,7 @@ package vc
 
 import (
 	"fmt"
+	"os"
 	"go/token"
 	"go/types"
 	"strings"
@@ -57,6 +58,9 @@ func fullName(fn *ssa.Function) string {
 func (f *frame) call(n *node, in *ssa.Call) bool {
 	x := f.x
 	common := &in.Call
+	saved := f.curCall
+	f.curCall = in
+	defer func() { f.curCall = saved }()
 	if b, ok := common.Value.(*ssa.Builtin); ok {
 		return f.builtin(n, in, b)
 	}
@@ -202,6 +206,7 @@ func (f *frame) inline(n *node, callee *ssa.Function, args []Val, binds []Val, s
 		sub.freeVals[fv] = binds[i]
 	}
 	sub.outer = f.activeEpochs(n)
+	sub.entryFacts = n.facts
 	x.stack = append(x.stack, callee)
 	x.callDepth++
 	sub.run(n.reach, n.heap)
@@ -211,6 +216,32 @@ func (f *frame) inline(n *node, callee *ssa.Function, args []Val, binds []Val, s
 		// every path of the callee panics
 		n.reach = "false"
 		return Val{}, false
+	}
+	// path-sensitive continuation: when the callee returns along a few distinct paths, the
+	// rest of the caller's block is executed once per return instead of on merged values
+	if in := f.curCall; in != nil && !f.spec && !x.inSpec() && !x.noFork && len(sub.rets) > 1 && len(sub.rets) <= 6 {
+		p := n
+		if n.primary != nil {
+			p = n.primary
+		}
+		if len(p.clones)+len(sub.rets) <= 24 {
+			if os.Getenv("IONVC_DEBUG") != "" {
+				fmt.Fprintf(os.Stderr, "fork %s in %s: %d returns\n", callee.Name(), f.fn.Name(), len(sub.rets))
+			}
+			for _, r := range sub.rets[1:] {
+				c := n.fork()
+				c.heap = r.heap.clone()
+				c.reach = r.reach
+				c.env[in] = r.val
+				c.facts = r.facts
+				f.forks = append(f.forks, c)
+			}
+			r0 := sub.rets[0]
+			n.heap = r0.heap.clone()
+			n.reach = r0.reach
+			n.facts = r0.facts
+			return r0.val, true
+		}
 	}
 	var conds []string
 	var heaps []*Heap
@@ -226,6 +257,10 @@ func (f *frame) inline(n *node, callee *ssa.Function, args []Val, binds []Val, s
 	}
 	n.heap = x.mergeHeaps(conds, heaps)
 	n.reach = x.g.Fresh(SortBool, or(conds...))
+	n.facts = sub.rets[0].facts
+	for _, r := range sub.rets[1:] {
+		n.facts = intersectFacts(n.facts, r.facts)
+	}
 	return res, true
 }
 
